@@ -22,7 +22,7 @@ TEXT_RX = ["[ab]", "[ab]+", "a+", "b?a", "(ab|b)", "[a-c]{1,2}", "[0-9]+", "[01]
            "a+(ba+)?", "[01]+(a[01]+)?", "b(ab)*"]
 TEXT_RX_EMPTY = ["a*", "[ab]*", "b?", "(ab)?"]
 TEXT_RX_NON_ASCII = ["[aé]+", "é+", "é?a", "[é€]{1,2}", "(é|ab)+", "aé?"]
-BIN_RX = ["[ab]", "[ab]+", "a+", "[0-9]{1,2}"]
+BIN_RX = ["[ab]", "[ab]+", "a+", "[0-9]{1,2}", "\\w+", "a\\s?b", "(?i)[a-c]+", "\\w{1,2}"]
 
 DEFAULT_SW = {
     "mode": "text",            # text | bin
